@@ -1,16 +1,17 @@
 """C14 driver: SCC / topological sort / condensation on the same digraph, in shuffled node and neighbour orders."""
+from drivers.labels import FreshList
 import random
 
 
 def _label(kind, i):
-    return {"str": "v%d" % i, "tuple": (i % 2, i)}.get(kind, i)
+    return {"str": "v%d" % i, "tuple": (i % 2, i), "big": 1000 + i}.get(kind, i)
 
 
 def run_scc(case):
     from solvor.scc import (condense, strongly_connected_components, strongly_connected_components_edges,
                             topological_sort, topological_sort_edges)
     n, m, kind = case["n"], case["m"], case.get("labels", "int")
-    labs = [_label(kind, i) for i in range(m)]
+    labs = FreshList(_label(kind, i) for i in range(m))
     ids = {lb: i for i, lb in enumerate(labs)}
     adj = {lb: [] for lb in labs}
     for u, v in case["edges"]:
@@ -60,7 +61,7 @@ def run_scc_steps(case):
     from solvor import _verif
     from solvor.scc import strongly_connected_components
     n, m, kind = case["n"], case["m"], case.get("labels", "int")
-    labs = [_label(kind, i) for i in range(m)]
+    labs = FreshList(_label(kind, i) for i in range(m))
     ids = {lb: i for i, lb in enumerate(labs)}
     adj = {lb: [] for lb in labs}
     for u, v in case["edges"]:
@@ -107,4 +108,4 @@ def gen(rng, nmax=8):
     rng.shuffle(edges)
     order = list(range(n))
     rng.shuffle(order)
-    return {"n": n, "m": m, "edges": edges, "order": order, "labels": rng.choice(["int", "str", "tuple"])}
+    return {"n": n, "m": m, "edges": edges, "order": order, "labels": rng.choice(["int", "str", "tuple", "big"])}
